@@ -157,3 +157,42 @@ Example c14_broadcast_nonvacuous :
      BRQ; BRPoll [0; 2] BPend []; BRDash; BRDash; BRPoll [0; 2] BOk [2000]%Z;
      BRQ; BRDash; BRDash; BRDash; BRPoll [0; 1; 2] BOk [3000; 3001; 3002]%Z].
 Proof. vm_compute. reflexivity. Qed.
+
+(* ------------------------------------------------------------------------------------------
+   The lock-free task set itself (model of util/task_set.rs at the granularity of single shared
+   accesses: any number of wakers, the owner taking / iterating / dropping, spurious failures of
+   compare_exchange_weak; sequentially consistent interleavings): the invariant holds in every
+   reachable state ... *)
+Require Import NX.Model.TaskSetConc NX.Proofs.TaskSetConcProofs.
+
+Theorem c14_taskset_invariant :
+  forall n ws ls, (forall i, In i ws -> i < n) -> TInv (tk_run (tk_init n ws) ls).
+Proof. exact tk_reachable_inv. Qed.
+Print Assumptions c14_taskset_invariant.
+
+Theorem c14_taskset_step : forall s l s', TInv s -> tk_step s l = Some s' -> TInv s'.
+Proof. exact tk_step_inv. Qed.
+Print Assumptions c14_taskset_step.
+
+(* ... the lists are never corrupted: the iterator never meets SLEEPING (an out-of-bounds index
+   in the code) ... *)
+Theorem c14_taskset_no_panic : forall s, TInv s -> tpanic s = 0.
+Proof. exact ts_no_panic. Qed.
+Print Assumptions c14_taskset_no_panic.
+
+(* ... and no completed wake-up is lost: the task is in the scheduled list, in the part of the
+   taken list the iterator has not reached yet, or claimed by a waker about to link it in; once
+   no waker is in flight and the owner is idle it is in the scheduled list, so the next
+   take_scheduled returns it *)
+Theorem c14_taskset_no_lost_wake :
+  forall s i, TInv s -> nth i (woken s) false = true ->
+    exists lh li, chain (tnext s) (snd (thead s)) lh /\ chain (tnext s) (citer (cph s)) li /\
+      (In i (lh ++ li) \/ exists j w, nth_error (tkwakers s) j = Some w /\ claimed w /\ kti w = i).
+Proof. exact ts_no_lost_wake. Qed.
+Print Assumptions c14_taskset_no_lost_wake.
+
+Theorem c14_taskset_quiescent_woken_is_scheduled :
+  forall s i, TInv s -> cph s = CIdle -> (forall j w, nth_error (tkwakers s) j = Some w -> ~ claimed w) ->
+    nth i (woken s) false = true -> exists lh, chain (tnext s) (snd (thead s)) lh /\ In i lh.
+Proof. exact ts_quiescent_woken_scheduled. Qed.
+Print Assumptions c14_taskset_quiescent_woken_is_scheduled.
